@@ -616,9 +616,12 @@ C07_Cond ==
          allLatest == \A n \in DesNames(c) : OnLatestAfter(c, n) IN
      \/ Lookup(store, ParentKeyOf(c)).uid # c.parent.uid
      \/ (/\ Cardinality(UpdIdx(st)) = 1
-         /\ (allLatest => (UpdField(st, "status") = "s:True" /\ UpdField(st, "reason") = "s:OnLatestRevision"))
-         /\ (~allLatest => (UpdField(st, "status") = "s:False" /\ UpdField(st, "reason") \in {"s:RolloutWaiting", "s:RolloutProgressing"}))
-         /\ ((~allLatest /\ MovedNeeding(c) # {}) => UpdField(st, "reason") = "s:RolloutProgressing"))
+         \* complete: every child is on the latest revision and this sync moved nothing that still needs a change
+         /\ ((allLatest /\ MovedNeeding(c) = {}) => (UpdField(st, "status") = "s:True" /\ UpdField(st, "reason") = "s:OnLatestRevision"))
+         \* progressing: this sync moved a child that is now to be updated
+         /\ (MovedNeeding(c) # {} => (UpdField(st, "status") = "s:False" /\ UpdField(st, "reason") = "s:RolloutProgressing"))
+         \* otherwise some child is still on an older revision: waiting (or progressing), never "complete"
+         /\ (~allLatest => (UpdField(st, "status") = "s:False" /\ UpdField(st, "reason") \in {"s:RolloutWaiting", "s:RolloutProgressing"})))
      \/ Report("C07", "C07_Cond", <<"allOnLatest", allLatest, "moved", MovedNeeding(c), "conditions", [p \in { q \in DOMAIN st : \E n \in 0..3 : \E f \in {"type", "status", "reason"} : q = "conditions." \o ToString(n) \o "." \o f } |-> st[p]]>>)
 \* C08: a rollout never waits on a child that exists, is up to date and passes its checks
 C08_NoNeedlessWait ==
@@ -662,6 +665,46 @@ C09_NotAhead ==
           \/ vs = {}
           \/ expect.revOrder[store[k].fields[RevField]] <= MaxOrd(vs)
           \/ Report("C09", "C09_NotAhead", <<k, "content at", store[k].fields[RevField], "claimed by", vs>>)
+
+\* =======================================================================================
+\* anti-vacuity: how often was each monitor's antecedent true in this trace?  (TLC registers; the
+\* trace spec is deterministic and runs with one worker)
+\* =======================================================================================
+Antecedents == <<
+  <<"C01_Bounded", IsEv("End") /\ HasExpect("fix")>>,
+  <<"C01_QuietAfterQuiet", ReqE /\ HasExpect("fix") /\ C.prevQuiet /\ C.fresh>>,
+  <<"C02_WriteSafe", ReqE /\ ChildWrite(E) /\ Accepted(E)>>,
+  <<"C02_DeleteUidPrecond", ReqE /\ IsOwnedKind(E) /\ E.verb = "delete">>,
+  <<"C02_BornOwned", ReqE /\ IsOwnedKind(E) /\ Accepted(E) /\ ~E.pre.live /\ E.post.live /\ E.verb \in {"create", "apply"}>>,
+  <<"C03_ViewExact", HookE>>,
+  <<"C04_AdoptOnlyIf", ReqE /\ IsOwnedKind(E) /\ Accepted(E) /\ IsAdoption(E, C)>>,
+  <<"C04_ReleaseShape", ReqE /\ IsOwnedKind(E) /\ Accepted(E) /\ IsRelease(E, C)>>,
+  <<"C04_LabelGate", IsEv("SyncEnd") /\ E.a \in DOMAIN ctx /\ ctx[E.a].gateBad>>,
+  <<"C06_Method", C06Scope /\ Key(E) \in DesiredKeys(C)>>,
+  <<"C06_Complete", IsEv("SyncEnd") /\ E.a \in DOMAIN ctx /\ ctx[E.a].active /\ ManageRan(ctx[E.a]) /\ ~AnyRolling /\ ctx[E.a].failedReqs = <<>> /\ E.result = "ok">>,
+  <<"C10_FinBeforeChild", ReqE /\ IsChildReq(E) /\ FinOn /\ E.verb \in {"create", "apply"} /\ Accepted(E)>>,
+  <<"C10_HookChoice_finalize", HookE /\ E.hook = "finalize">>,
+  <<"C10_RemoveOnlyFinalized", ReqE /\ IsParentReq(E, C) /\ E.verb = "update" /\ Accepted(E) /\ HasFin(E.pre, C) /\ ~HasFin(E.post, C)>>,
+  <<"C10_DyingNoTouch", ReqE /\ Cur(C).deleting /\ (~FinOn \/ ~HasFin(Cur(C), C) \/ GCFin(Cur(C)))>>,
+  <<"C11_StatusBody", ReqE /\ IsComposite /\ IsParentReq(E, C) /\ E.verb = "updateStatus" /\ Accepted(E)>>,
+  <<"C11_RetryFresh", ReqE /\ IsComposite /\ IsParentReq(E, C) /\ E.verb = "updateStatus" /\ C.statusConflict>>,
+  <<"C11_Written", IsEv("SyncEnd") /\ IsComposite /\ E.a \in DOMAIN ctx /\ ctx[E.a].active /\ Reached(ctx[E.a])>>,
+  <<"C12_ErrorRequeues", IsEv("SyncEnd") /\ E.a \in DOMAIN ctx /\ ctx[E.a].active /\ (ctx[E.a].nonBenign \/ ctx[E.a].hookFail)>>,
+  <<"C12_OthersProceed", IsEv("SyncEnd") /\ E.a \in DOMAIN ctx /\ ctx[E.a].active /\ ManageRan(ctx[E.a]) /\ ctx[E.a].childFault>>,
+  <<"C13_RejectedNoWrites", IsEv("SyncEnd") /\ E.a \in DOMAIN ctx /\ ctx[E.a].active /\ E.result = "error" /\ ctx[E.a].nHooks > 0 /\ ~ctx[E.a].hookFail /\ ctx[E.a].failedReqs = <<>>>>,
+  <<"C16_TargetWrite", DecTargetWrite>>,
+  <<"C16_Applied", IsEv("SyncEnd") /\ IsDecorator /\ E.a \in DOMAIN ctx /\ ctx[E.a].active /\ ctx[E.a].nHooks = 1 /\ ctx[E.a].hookOK /\ E.result = "ok">>,
+  <<"C07_RollEnd", RollEnd>>,
+  <<"C07_Moved", RollEnd /\ MovedNeeding(ctx[E.a]) # {}>>,
+  <<"C07_OldStay", RollWrite /\ ClaimVals(store, PUid, E.kind, E.name) # {}>>,
+  <<"C08_Done", IsEv("End") /\ RollScn /\ "done" \in DOMAIN expect /\ expect.done>>,
+  <<"C09_CrashSeen", IsEv("Crash")>>,
+  <<"C17_HookSeesDelivered", HookE>>
+>>
+AnteNames == <<"C01_Bounded", "C01_QuietAfterQuiet", "C02_WriteSafe", "C02_DeleteUidPrecond", "C02_BornOwned", "C03_ViewExact", "C04_AdoptOnlyIf", "C04_ReleaseShape", "C04_LabelGate", "C06_Method", "C06_Complete", "C10_FinBeforeChild", "C10_HookChoice_finalize", "C10_RemoveOnlyFinalized", "C10_DyingNoTouch", "C11_StatusBody", "C11_RetryFresh", "C11_Written", "C12_ErrorRequeues", "C12_OthersProceed", "C13_RejectedNoWrites", "C16_TargetWrite", "C16_Applied", "C07_RollEnd", "C07_Moved", "C07_OldStay", "C08_Done", "C09_CrashSeen", "C17_HookSeesDelivered">>
+VacInit == \A i \in DOMAIN AnteNames : TLCSet(i, 0)
+Vacuity == \A i \in DOMAIN Antecedents : (~Antecedents[i][2]) \/ TLCSet(i, TLCGet(i) + 1)
+VacReport == PrintT("VACUITY|" \o ToJson([i \in DOMAIN AnteNames |-> <<AnteNames[i], TLCGet(i)>>]))
 
 \* =======================================================================================
 \* state update
@@ -748,7 +791,7 @@ NewCtx(e) ==
                 !.atFix = IF HasExpect("fix") THEN AtFix(store) ELSE FALSE,
                 !.prevQuiet = IF e.a \in DOMAIN ctx THEN (ctx[e.a].result = "ok" /\ ~ctx[e.a].wrote /\ ctx[e.a].childReqs = 0) ELSE FALSE]
 
-Init == l = 1 /\ store = <<>> /\ cfg = [children |-> <<>>] /\ expect = <<>> /\ ctx = <<>>
+Init == l = 1 /\ store = <<>> /\ cfg = [children |-> <<>>] /\ expect = <<>> /\ ctx = <<>> /\ VacInit
 
 \* an environment step ends every "nothing changed" streak
 EnvResets == [a \in DOMAIN ctx |-> [ctx[a] EXCEPT !.result = "env", !.wrote = TRUE]]
@@ -772,5 +815,5 @@ Next ==
 Spec == Init /\ [][Next]_vars
 
 \* every line consumed: the spec never gets stuck on an event
-TraceAccepted == TLCGet("stats").diameter - 1 = N
+TraceAccepted == VacReport /\ TLCGet("stats").diameter - 1 = N
 =============================================================================
